@@ -121,6 +121,12 @@ enum StrSite {
     InputFieldDefault(usize, usize),
     DirArg(usize),
     DeprecationReason(usize, usize),
+    /// the string as an item of a list value: `@note(texts: [s, "|"])`, `@note(grid: [[s], []])`,
+    /// a list default of an input field, a list inside an object default
+    DirListArg(usize),
+    DirNestedListArg(usize),
+    InputFieldListDefault(usize, usize),
+    InputFieldObjectDefault(usize, usize),
 }
 
 fn string_sites(doc: &TsDoc) -> Vec<(StrSite, &'static str)> {
@@ -150,9 +156,17 @@ fn string_sites(doc: &TsDoc) -> Vec<(StrSite, &'static str)> {
             if f.ty.base() == "String" && !matches!(f.ty.nullable(), Ty::List(..)) {
                 out.push((StrSite::InputFieldDefault(i, j), "default-value"));
             }
+            if f.name.s == "labels" {
+                out.push((StrSite::InputFieldListDefault(i, j), "default-value"));
+            }
+            if f.name.s == "nested" && d.input_fields.iter().any(|g| g.name.s == "labels") {
+                out.push((StrSite::InputFieldObjectDefault(i, j), "default-value"));
+            }
         }
         if d.kind == TsKind::Object {
             out.push((StrSite::DirArg(i), "directive-argument"));
+            out.push((StrSite::DirListArg(i), "directive-argument"));
+            out.push((StrSite::DirNestedListArg(i), "directive-argument"));
         }
     }
     out
@@ -170,6 +184,10 @@ fn put(doc: &mut TsDoc, site: &StrSite, s: &str) {
         StrSite::InputFieldDefault(i, j) => doc.defs[*i].input_fields[*j].default = Some(Value::Str(p, s.to_string())),
         StrSite::DirArg(i) => doc.defs[*i].dirs.push(dir("note", vec![("text", Value::Str(p, s.to_string()))])),
         StrSite::DeprecationReason(i, j) => doc.defs[*i].fields[*j].dirs.push(dir("deprecated", vec![("reason", Value::Str(p, s.to_string()))])),
+        StrSite::DirListArg(i) => doc.defs[*i].dirs.push(dir("note", vec![("texts", Value::List(p, vec![Value::Str(p, s.to_string()), Value::Str(p, "|".into())]))])),
+        StrSite::DirNestedListArg(i) => doc.defs[*i].dirs.push(dir("note", vec![("grid", Value::List(p, vec![Value::List(p, vec![Value::Str(p, s.to_string())]), Value::List(p, vec![])]))])),
+        StrSite::InputFieldListDefault(i, j) => doc.defs[*i].input_fields[*j].default = Some(Value::List(p, vec![Value::Str(p, s.to_string()), Value::Str(p, "|".into())])),
+        StrSite::InputFieldObjectDefault(i, j) => doc.defs[*i].input_fields[*j].default = Some(Value::Obj(p, vec![(nm("labels"), Value::List(p, vec![Value::Str(p, s.to_string())]))])),
     }
 }
 
@@ -181,8 +199,17 @@ fn part_a_case(c: &mut Chooser) -> (Vec<TsDoc>, Vec<String>) {
     let mut note = TsDef::new(TsKind::Directive, Some("note"));
     note.locations = vec![nm("OBJECT")];
     note.repeatable = true;
-    note.dir_args = Some(vec![InputValueDef { desc: None, p: P::default(), name: nm("text"), ty: Ty::named("String"), default: None, dirs: vec![] }]);
+    let list_of = |t: Ty| Ty::List(P::default(), Box::new(t));
+    note.dir_args = Some(vec![
+        InputValueDef { desc: None, p: P::default(), name: nm("text"), ty: Ty::named("String"), default: None, dirs: vec![] },
+        InputValueDef { desc: None, p: P::default(), name: nm("texts"), ty: list_of(Ty::named("String")), default: None, dirs: vec![] },
+        InputValueDef { desc: None, p: P::default(), name: nm("grid"), ty: list_of(list_of(Ty::named("String"))), default: None, dirs: vec![] },
+    ]);
     files[0].defs.push(note);
+    // an input field that takes a list of strings (for list defaults and lists inside object defaults)
+    if let Some(d) = files.iter_mut().flat_map(|f| f.defs.iter_mut()).find(|d| d.kind == TsKind::Input && !d.ext && d.name_str() == "Filter") {
+        d.input_fields.push(InputValueDef { desc: None, p: P::default(), name: nm("labels"), ty: list_of(Ty::named("String")), default: None, dirs: vec![] });
+    }
     // a nitrogql-only directive application that must be stripped
     if c.flag("scalar.nitrogql_ts_type") {
         if let Some(d) = files.iter_mut().flat_map(|f| f.defs.iter_mut()).find(|d| d.kind == TsKind::Scalar && !d.ext) {
